@@ -3,8 +3,9 @@ import IbModel.Model.Validation
 import IbModel.Generated.Tables
 /-!
 Driver handlers for C17 (see `harness/src/c17.rs` for the request grammar):
-`VALIDATE <skip|log|ff> <rec|kv> <mode|short> <c0|c1> <seq|par:N> <rows>`, `COMBINE <results>`,
-`VPIPE <skip|log|ff> <c0|c1> <seq|par:N> <steps> <rows>`.
+`VALIDATE <skip|log|ff> <rec|kv> <mode|short> <COLL> <seq|par:N|par:none> <rows>`, `COMBINE <results>`,
+`VPIPE <skip|log|ff> <rec|kv> <COLL> <seq|par:N|par:none> <steps> <rows>`; `COLL` = `c0` | `c1[+entries]` |
+`cp[+entries]` (the collector before the run: absent / healthy / poisoned, with the entries it already holds).
 -/
 namespace IB.D17
 open IB.Wire IB.Validation
@@ -53,16 +54,38 @@ def mode? : String → Option Mode
   | "ff" => some .failFast
   | _ => none
 
-def coll? : String → Option Bool
-  | "c0" => some false
-  | "c1" => some true
+/-- `<record_id|none>/E<digits>` -/
+def entry? (s : String) : Option (RecordError Nat) :=
+  match s.splitOn "/" with
+  | [i, sp] =>
+    match spec? sp with
+    | some (some cs) => some ⟨if i == "none" then none else some i, cs⟩
+    | _ => none
   | _ => none
 
-/-- `none` = sequential, `some n` = parallel with `Some(n)` partitions -/
-def exec? (s : String) : Option (Option Nat) :=
-  if s == "seq" then some none
+/-- collector state before the run: `c0` (none passed) | `c1` | `cp` (poisoned), optionally `+<entries>`;
+    result = (a collector is passed, its state) -/
+def coll? (s : String) : Option (Bool × Collector Nat) :=
+  match s.splitOn "+" with
+  | ["c0"] => some (false, ⟨[], false⟩)
+  | ["c1"] => some (true, ⟨[], false⟩)
+  | ["cp"] => some (true, ⟨[], true⟩)
+  | ["c1", es] => (es.splitOn ",").mapM entry? |>.map (fun l => (true, ⟨l, false⟩))
+  | ["cp", es] => (es.splitOn ",").mapM entry? |>.map (fun l => (true, ⟨l, true⟩))
+  | _ => none
+
+inductive Exec
+  | seq
+  | par (n : Nat)
+  /-- `collect_par(_, None)`: the planner suggests a machine-dependent partition count -/
+  | parNone
+  deriving DecidableEq
+
+def exec? (s : String) : Option Exec :=
+  if s == "seq" then some .seq
+  else if s == "par:none" then some .parNone
   else match s.splitOn ":" with
-    | ["par", n] => (parseNat? n).map some
+    | ["par", n] => (parseNat? n).map .par
     | _ => none
 
 def insertStr (x : String) : List String → List String
@@ -76,21 +99,39 @@ def joinOrDash (l : List String) : String := if l.isEmpty then "-" else ",".inte
 def renderEntry (e : RecordError Nat) : String :=
   (e.recordId.getD "none") ++ "/E" ++ digits e.errors
 
-def renderRun {α : Type} (render : α → String) (seq : Bool) (fullPanic : Bool) (r : Run α Nat) : String :=
+/-- `c0` = the collector before the run; the run's pushes (`r.collector`, one admissible order) are absorbed
+    into it; the first `|c0|` entries of the result are printed in order (`pre=`), the rest in order for a
+    sequential run, sorted for a parallel run (any interleaving is admissible), sorted without ids for `par:none`
+    (the ids depend on the machine's partition count; output and payload multiset do not:
+    `run_any_partitioning`, `log_accounts`) -/
+def renderRun {α : Type} (render : α → String) (exec : Exec) (fullPanic : Bool) (c0 : Collector Nat)
+    (r : Run α Nat) : String :=
   match r.output with
   | some kept =>
-    "OK kept=" ++ joinOrDash (kept.map render) ++ " log=" ++ joinOrDash (sortStr (r.collector.map renderEntry))
+    let final := (c0.absorb r.collector).entries
+    let k := c0.entries.length
+    let rest := final.drop k
+    let log := match exec with
+      | .seq => rest.map renderEntry
+      | .par _ => sortStr (rest.map renderEntry)
+      | .parNone => sortStr (rest.map (fun e => "E" ++ digits e.errors))
+    "OK kept=" ++ joinOrDash (kept.map render) ++ " pre=" ++ joinOrDash ((final.take k).map renderEntry)
+      ++ " log=" ++ joinOrDash log
   | none =>
-    if seq && fullPanic then
+    if exec == .seq && fullPanic then
       match r.panics with
       | [(i, es)] => "PANIC at=" ++ toString i ++ ":E" ++ digits es
       | _ => "BAD-OP"
     else "PANIC"
 
-def run {α : Type} (op : List α → Outcome α Nat) (exec : Option Nat) (rows : List α) : Run α Nat :=
+/-- `par:none` is evaluated on one partition: output, failure and the multiset of logged error lists are the
+    same for every partitioning (theorems `run_any_partitioning`, `failfast_run_iff`, `log_accounts`), and only
+    those are rendered for it -/
+def run {α : Type} (op : List α → Outcome α Nat) (exec : Exec) (rows : List α) : Run α Nat :=
   match exec with
-  | none => runSeq op rows
-  | some n => runPar op n rows
+  | .seq => runSeq op rows
+  | .par n => runPar op n rows
+  | .parNone => runSeq op rows
 
 /-- which (mode, shape, api, collector) combinations the public builders offer -/
 def apiOk (mode : Mode) (keyed short coll : Bool) : Bool :=
@@ -99,18 +140,18 @@ def apiOk (mode : Mode) (keyed short coll : Bool) : Bool :=
 def handleValidate : List String → String
   | [m, shape, api, c, e, rows] =>
     match mode? m, coll? c, exec? e with
-    | some mode, some coll, some exec =>
+    | some mode, some (coll, c0), some exec =>
       let short? : Option Bool := if api == "short" then some true else if api == "mode" then some false else none
       match short?, shape with
       | some short, "rec" =>
         if !apiOk mode false short coll then "BAD-OP" else
         match listOf? rec? rows with
-        | some rs => renderRun renderRec exec.isNone true (run (validateOp Rec.validate mode coll) exec rs)
+        | some rs => renderRun renderRec exec true c0 (run (validateOp Rec.validate mode coll) exec rs)
         | none => "BAD-OP"
       | some short, "kv" =>
         if !apiOk mode true short coll then "BAD-OP" else
         match listOf? kv? rows with
-        | some rs => renderRun renderKv exec.isNone true (run (validateValuesOp Rec.validate mode coll) exec rs)
+        | some rs => renderRun renderKv exec true c0 (run (validateValuesOp Rec.validate mode coll) exec rs)
         | none => "BAD-OP"
       | _, _ => "BAD-OP"
     | _, _, _ => "BAD-OP"
@@ -126,15 +167,16 @@ def handleCombine : List String → String
     | none => "BAD-OP"
   | _ => "BAD-OP"
 
-/-! ### `VPIPE`: a keyed block of value steps around validators, through the planner's reorder pass -/
+/-! ### `VPIPE`: a block of element-wise steps around validators, through the planner's reorder pass -/
 
 inductive Step
-  | inc | heal | odd | val
+  | inc | heal | brk | odd | val
   deriving DecidableEq
 
 def step? : String → Option Step
   | "inc" => some .inc
   | "heal" => some .heal
+  | "brk" => some .brk
   | "odd" => some .odd
   | "val" => some .val
   | _ => none
@@ -147,45 +189,68 @@ def modeTok : Mode → String
   | .logAndContinue => "log"
   | .failFast => "ff"
 
-/-- flags of each step, as dumped from the running code -/
-def stepFlags? (mode : Mode) (coll : Bool) : Step → Option Flags
-  | .inc | .heal => lookupFlags IB.Generated.valueStepFlags "map_values"
-  | .odd => lookupFlags IB.Generated.valueStepFlags "filter_values"
+/-- flags of each step, as dumped from the running code (`keyed`: map_values / filter_values /
+    validate_values_with_mode, else map / filter / validate_with_mode) -/
+def stepFlags? (keyed : Bool) (mode : Mode) (coll : Bool) : Step → Option Flags
+  | .inc | .heal | .brk =>
+    if keyed then lookupFlags IB.Generated.valueStepFlags "map_values" else lookupFlags IB.Generated.elemStepFlags "map"
+  | .odd =>
+    if keyed then lookupFlags IB.Generated.valueStepFlags "filter_values"
+    else lookupFlags IB.Generated.elemStepFlags "filter"
   | .val => lookupFlags IB.Generated.validateOpFlags
-      ("validate_values_with_mode:" ++ modeTok mode ++ ":" ++ (if coll then "c1" else "c0"))
+      ((if keyed then "validate_values_with_mode:" else "validate_with_mode:") ++ modeTok mode ++ ":"
+        ++ (if coll then "c1" else "c0"))
 
 def incRec (r : Rec) : Rec := ⟨r.id, r.errs.map (fun cs => cs.map (fun c => (c + 1) % 10))⟩
 def healRec (r : Rec) : Rec :=
   match r.errs with
   | some cs => if cs.all (fun c => c % 2 == 0) then ⟨r.id, none⟩ else r
   | none => r
+def brkRec (r : Rec) : Rec :=
+  match r.errs with
+  | none => if r.id % 3 == 0 then ⟨r.id, some [(r.id % 10).toNat]⟩ else r
+  | some _ => r
 def oddRec (r : Rec) : Bool := r.id % 2 != 0
 
-/-- `ops.iter().fold(p, |acc, op| op.apply(acc))` on one partition; a panicking validator ends the partition -/
-def applySteps (mode : Mode) (coll : Bool) : List Step → Outcome (Int × Rec) Nat → Outcome (Int × Rec) Nat
-  | [], st => st
-  | s :: rest, st =>
-    if st.panic.isSome then st else
-    match s with
-    | .inc => applySteps mode coll rest { st with valid := st.valid.map (fun kv => (kv.1, incRec kv.2)) }
-    | .heal => applySteps mode coll rest { st with valid := st.valid.map (fun kv => (kv.1, healRec kv.2)) }
-    | .odd => applySteps mode coll rest { st with valid := st.valid.filter (fun kv => oddRec kv.2) }
-    | .val =>
-      let o := validateValuesOp Rec.validate mode coll st.valid
-      applySteps mode coll rest ⟨o.valid, st.pushes ++ o.pushes, o.panic⟩
+def onVal {κ : Type} (f : Rec → Rec) (kv : κ × Rec) : κ × Rec := (kv.1, f kv.2)
+
+/-- the steps as operators of the model's fused block -/
+def blockOfKv (mode : Mode) (coll : Bool) : Step → BlockOp (Int × Rec) Nat
+  | .inc => .map (onVal incRec)
+  | .heal => .map (onVal healRec)
+  | .brk => .map (onVal brkRec)
+  | .odd => .filter (fun kv => oddRec kv.2)
+  | .val => .validator (validateValuesOp Rec.validate mode coll)
+
+def blockOfRec (mode : Mode) (coll : Bool) : Step → BlockOp Rec Nat
+  | .inc => .map incRec
+  | .heal => .map healRec
+  | .brk => .map brkRec
+  | .odd => .filter oddRec
+  | .val => .validator (validateOp Rec.validate mode coll)
 
 def handleVpipe : List String → String
-  | [m, c, e, steps, rows] =>
-    match mode? m, coll? c, exec? e, (steps.splitOn "+").mapM step?, listOf? kv? rows with
-    | some mode, some coll, some exec, some steps, some rs =>
-      match steps.mapM (fun s => (stepFlags? mode coll s).map (fun f => (s, f))) with
+  | [m, shape, c, e, steps, rows] =>
+    match mode? m, coll? c, exec? e, (steps.splitOn "+").mapM step? with
+    | some mode, some (coll, c0), some exec, some steps =>
+      let keyed? : Option Bool := if shape == "kv" then some true else if shape == "rec" then some false else none
+      match keyed? with
+      | none => "BAD-OP"
+      | some keyed =>
+      match steps.mapM (fun s => (stepFlags? keyed mode coll s).map (fun f => (s, f))) with
       | some tagged =>
         -- the planner fuses the adjacent stateless nodes into one block and runs its reorder pass on it
         let planned := (reorderBlock (fun (sf : Step × Flags) => sf.2) tagged).map (·.1)
-        renderRun renderKv exec.isNone false
-          (run (fun part => applySteps mode coll planned ⟨part, [], none⟩) exec rs)
+        if keyed then
+          match listOf? kv? rows with
+          | some rs => renderRun renderKv exec false c0 (run (blockOp (planned.map (blockOfKv mode coll))) exec rs)
+          | none => "BAD-OP"
+        else
+          match listOf? rec? rows with
+          | some rs => renderRun renderRec exec false c0 (run (blockOp (planned.map (blockOfRec mode coll))) exec rs)
+          | none => "BAD-OP"
       | none => "BAD-OP"
-    | _, _, _, _, _ => "BAD-OP"
+    | _, _, _, _ => "BAD-OP"
   | _ => "BAD-OP"
 
 def handlers : List (String × (List String → String)) :=
